@@ -13,6 +13,10 @@ CLAIMED = {
             "TLA+ spec LocalChannel.tla model-checked exhaustively by TLC (+5 NEG variants that must be rejected); every edge of the state graph replayed on the real channel; recorded traces validated by TLC against LocalChannelTrace.tla",
             "All operation sequences up to the depth bound (6 quick / 8 thorough, <=3 live senders) are enumerated by TLC on the spec; an init-rooted path cover of every model edge is executed on the real Sender/Receiver and the observed results/wake-ups are checked by TLC (strict trace validation, API-level spec) plus seeded random longer sequences.",
             "Trusts TLC, the path-cover script, counting wakers as wake-up observation; bounded depth."),
+    "C17": ("local", "5/C17, 4.9",
+            "TLA+ specs CounterWaker.tla and LocalWakerSpec.tla model-checked exhaustively by TLC (+5 NEG variants); every edge replayed on the real Counter / LocalWaker; traces validated by TLC (strict)",
+            "All sequences up to depth 7 (quick) / 9 (thorough) over get/drop/avail/clone for capacities 0..3 and all register/wake/take sequences up to length 6 with 2 wakers are enumerated by TLC; a path cover of every model edge is executed on the real objects and TLC checks the recorded results, totals and wake-ups.",
+            "Trusts TLC, the path-cover script, counting wakers; bounded depth."),
 }
 
 NOT_YET = "check not built yet in this round; the specification for it is planned in DESIGN.md section 5"
